@@ -387,9 +387,18 @@ Proof.
   assert (ST : amem (qual public tn) (s_tabs s) = true) by (apply amem_alookup; eauto).
   rewrite ST. rewrite (split_dot_none _ W). rewrite EL. rewrite ET.
   rewrite (all_cols_found_exact csc cols CO HIn). cbn [negb t_rows].
-  destruct (build_data_ok csc cols rows 0 [] CO HIn WD) as [d BD]. rewrite BD. cbn [fst snd].
-  split; auto with c33.
-  apply (agree_add_index s iname tn unique cols csc rows d A EL ET HIn CK); auto.
+  destruct (build_data_ok csc cols rows 0 [] CO HIn WD) as [d BD]. rewrite BD.
+  assert (OKC : Agree (set_sidx (set_cidx s (ainsert (ci_key tn iname) (mkci iname tn cols unique) (s_cidx s)))
+                                (ainsert (idx_norm iname) (mksi iname tn unique cols d) (s_sidx s))))
+    by (apply (agree_add_index s iname tn unique cols csc rows d A EL ET HIn CK); auto).
+  (* a refused UNIQUE index takes its catalog entry back: the registry is as before *)
+  assert (UNDO : aremove (ci_key tn iname) (ainsert (ci_key tn iname) (mkci iname tn cols unique) (s_cidx s)) = s_cidx s).
+  { apply aremove_ainsert_absent. apply amem_false. exact CK. }
+  destruct unique.
+  - pose proof (unique_scan_no_panic csc cols rows [] CO HIn WD) as NPU.
+    destruct (unique_scan csc cols rows []); cbn [fst snd]; try contradiction; split; auto with c33.
+    eapply agree_ext; [| | | | |exact A]; simp_st; auto.
+  - cbn [fst snd]. split; auto with c33.
 Qed.
 
 (* ------------------------------------------------------------------------------------------ *)
